@@ -9,6 +9,8 @@ import (
 	"encoding/json"
 	"fmt"
 	"go/types"
+	"golang.org/x/tools/go/ssa"
+	"gosym/sym"
 	"math"
 	"reflect"
 	"sort"
@@ -172,6 +174,9 @@ func jsonToTyped(T types.Type, raw any, base value) (value, error) {
 	case *types.Basic:
 		switch {
 		case ut.Info()&types.IsString != 0:
+			if ss, isSym := raw.(jsonSymStr); isSym {
+				return mkStr(ss.b), nil
+			}
 			s, ok := raw.(string)
 			if !ok {
 				return mismatch()
@@ -218,6 +223,104 @@ func jsonToTyped(T types.Type, raw any, base value) (value, error) {
 	return base, fmt.Errorf("json: unsupported target type %s", types.TypeString(T, nil))
 }
 
+// Symbolic bytes inside JSON string literals: a byte that cannot be a quote, a backslash, a control character or
+// a non-ASCII byte is an ordinary string character wherever it stands, so the document is decoded with a
+// private-use placeholder rune in its place and the placeholder is mapped back afterwards. Any other symbolic
+// byte is concretised (forking) as before.
+const jsonPlaceholderBase = 0xE000
+
+type jsonSymStr struct{ b []value }
+
+func (i *interpreter) jsonInput(in []value) (string, []value) {
+	var sb strings.Builder
+	var syms []value
+	inStr, esc := false, false
+	track := func(c byte) {
+		switch {
+		case esc:
+			esc = false
+		case inStr && c == '\\':
+			esc = true
+		case c == '"':
+			inStr = !inStr
+		}
+	}
+	for _, b := range in {
+		if c, ok := b.(uint8); ok {
+			sb.WriteByte(c)
+			track(c)
+			continue
+		}
+		if !inStr || esc {
+			c := i.concValue(b, "json input byte outside a string literal").(uint8)
+			sb.WriteByte(c)
+			track(c)
+			continue
+		}
+		t := byteTerm(b)
+		special := sym.Or(sym.Cmp(sym.OpULt, t, sym.BV(8, 0x20)), sym.Eq(t, sym.BV(8, '"')), sym.Eq(t, sym.BV(8, '\\')), sym.Cmp(sym.OpULe, sym.BV(8, 0x80), t))
+		if len(syms) >= 0x1800 || i.path.branch(special) {
+			c := i.concValue(b, "json input byte").(uint8)
+			sb.WriteByte(c)
+			track(c)
+			continue
+		}
+		sb.WriteRune(rune(jsonPlaceholderBase + len(syms)))
+		syms = append(syms, b)
+	}
+	return sb.String(), syms
+}
+
+func jsonRestoreString(s string, syms []value) any {
+	has := false
+	for _, r := range s {
+		if r >= jsonPlaceholderBase && int(r-jsonPlaceholderBase) < len(syms) {
+			has = true
+			break
+		}
+	}
+	if !has {
+		return s
+	}
+	var out []value
+	for _, r := range s {
+		if r >= jsonPlaceholderBase && int(r-jsonPlaceholderBase) < len(syms) {
+			out = append(out, syms[r-jsonPlaceholderBase])
+			continue
+		}
+		for _, c := range []byte(string(r)) {
+			out = append(out, c)
+		}
+	}
+	return jsonSymStr{out}
+}
+
+// jsonRestore maps placeholder runes in decoded strings back to the symbolic bytes they stand for. A placeholder
+// in an object key is not supported (keys of the documents under test are concrete).
+func jsonRestore(raw any, syms []value) any {
+	if len(syms) == 0 {
+		return raw
+	}
+	switch x := raw.(type) {
+	case string:
+		return jsonRestoreString(x, syms)
+	case []any:
+		for k, e := range x {
+			x[k] = jsonRestore(e, syms)
+		}
+		return x
+	case map[string]any:
+		for k, e := range x {
+			if _, isSym := jsonRestoreString(k, syms).(jsonSymStr); isSym {
+				panic(engineAbort{"json: symbolic byte in an object key"})
+			}
+			x[k] = jsonRestore(e, syms)
+		}
+		return x
+	}
+	return raw
+}
+
 func jsonPlain(raw any) any {
 	switch x := raw.(type) {
 	case json.Number:
@@ -249,6 +352,20 @@ func (i *interpreter) jsonEncode(out []value, T types.Type, v value) []value {
 	if T == nil {
 		ws("null")
 		return out
+	}
+	// a type with its own MarshalJSON (in its method set) renders itself, as encoding/json has it
+	if _, isIface := T.Underlying().(*types.Interface); !isIface && i.jsonFr != nil {
+		if p, isPtr := v.(*value); !isPtr || p != nil {
+			if fn := i.marshalJSONMethod(T); fn != nil {
+				saved := i.jsonFr
+				res := call(i, saved, 0, fn, []value{v}).(tuple)
+				i.jsonFr = saved
+				if e := res[1].(iface); e.t != nil {
+					i.path.abort("json: MarshalJSON of %s returned an error", types.TypeString(T, nil))
+				}
+				return append(out, res[0].([]value)...)
+			}
+		}
 	}
 	switch ut := T.Underlying().(type) {
 	case *types.Interface:
@@ -328,19 +445,29 @@ func (i *interpreter) jsonEncode(out []value, T types.Type, v value) []value {
 		switch {
 		case ut.Info()&types.IsString != 0:
 			out = append(out, uint8('"'))
-			for _, b := range strBytes(v) {
-				if c, ok := b.(uint8); ok {
-					switch {
-					case c == '"' || c == '\\':
-						out = append(out, uint8('\\'), c)
-					case c < 0x20:
-						ws(fmt.Sprintf("\\u%04x", c))
-					default:
-						out = append(out, c)
+			bs := strBytes(v)
+			allPlain := true
+			for _, b := range bs {
+				c, ok := b.(uint8)
+				if !ok {
+					t := byteTerm(b)
+					special := sym.Or(sym.Cmp(sym.OpULt, t, sym.BV(8, 0x20)), sym.Eq(t, sym.BV(8, '"')), sym.Eq(t, sym.BV(8, '\\')), sym.Cmp(sym.OpULe, sym.BV(8, 0x7f), t),
+						sym.Eq(t, sym.BV(8, '<')), sym.Eq(t, sym.BV(8, '>')), sym.Eq(t, sym.BV(8, '&')))
+					if !i.path.branch(special) {
+						continue // an ordinary character: rendered as is
 					}
-				} else {
-					out = append(out, b) // symbolic byte: rendered as is (harness alphabets avoid escapes)
+				} else if c >= 0x20 && c < 0x7f && c != '"' && c != '\\' && c != '<' && c != '>' && c != '&' {
+					continue
 				}
+				allPlain = false
+				break
+			}
+			if allPlain {
+				out = append(out, bs...)
+			} else {
+				// escapes, HTML-unsafe or non-ASCII bytes: the host encoder renders the (concretised) string
+				hb, _ := json.Marshal(i.concValue(v, "json string with escapes").(string))
+				ws(string(hb[1 : len(hb)-1]))
 			}
 			out = append(out, uint8('"'))
 			return out
@@ -363,6 +490,30 @@ func (i *interpreter) jsonEncode(out []value, T types.Type, v value) []value {
 	}
 	ws("null")
 	return out
+}
+
+// marshalJSONMethod returns T's MarshalJSON() ([]byte, error) if it is in T's method set.
+func (i *interpreter) marshalJSONMethod(T types.Type) *ssa.Function {
+	if _, ok := T.(*types.Named); !ok {
+		if pt, ok := T.(*types.Pointer); !ok {
+			return nil
+		} else if _, ok := pt.Elem().(*types.Named); !ok {
+			return nil
+		}
+	}
+	mset := i.prog.MethodSets.MethodSet(T)
+	for k := 0; k < mset.Len(); k++ {
+		sel := mset.At(k)
+		if sel.Obj().Name() != "MarshalJSON" {
+			continue
+		}
+		sig := sel.Type().(*types.Signature)
+		if sig.Params().Len() != 0 || sig.Results().Len() != 2 {
+			return nil
+		}
+		return i.prog.MethodValue(sel)
+	}
+	return nil
 }
 
 func jsonIsEmpty(v value) bool {
@@ -392,7 +543,7 @@ func init() {
 	// func Unmarshal(data []byte, v any) error
 	intrinsics["encoding/json.Unmarshal"] = func(fr *frame, args []value) value {
 		i := fr.i
-		data := i.concValue(mkStr(args[0].([]value)), "json input").(string)
+		data, syms := i.jsonInput(args[0].([]value))
 		dst := args[1].(iface)
 		ptr, ok := dst.v.(*value)
 		if !ok || ptr == nil || dst.t == nil {
@@ -411,6 +562,7 @@ func init() {
 		if dec.More() {
 			return i.newError(fr, "invalid character after top-level value")
 		}
+		raw = jsonRestore(raw, syms)
 		v, err := jsonToTyped(pt.Elem(), raw, load(pt.Elem(), ptr))
 		if err != nil {
 			return i.newError(fr, err.Error())
@@ -421,6 +573,7 @@ func init() {
 	// func Marshal(v any) ([]byte, error)
 	intrinsics["encoding/json.Marshal"] = func(fr *frame, args []value) value {
 		it := args[0].(iface)
+		fr.i.jsonFr = fr
 		out := fr.i.jsonEncode(nil, it.t, it.v)
 		return tuple{out, iface{}}
 	}
@@ -430,6 +583,7 @@ func init() {
 		enc := (*args[0].(*value)).(structure)
 		w := enc[0].(iface)
 		it := args[1].(iface)
+		i.jsonFr = fr
 		out := i.jsonEncode(nil, it.t, it.v)
 		out = append(out, uint8('\n'))
 		if w.t == nil {
